@@ -480,13 +480,44 @@ impl TTS {
         fn compute_bookmark_element<'c, 's:'c, 'm, 'r>(value: &TTSCommandValue, tag_and_attr: &str, rules_with_context: &'r mut SpeechRulesWithContext<'c, 's, 'm>, mathml: Element<'c>) -> Result<String> {
             match value {
                 TTSCommandValue::XPath(xpath) => {
-                    let id = xpath.replace::<String>(rules_with_context, mathml)?;
-                    return Ok( format!("<{}='{}'/>", tag_and_attr, id) );
+                    // the id is a name, not something to speak: use the xpath's string value as it is
+                    //   ('replace' would turn an id such as "A" or "+" into the words (and tags) used to speak that character)
+                    let id = match xpath.evaluate(rules_with_context.get_context(), mathml)
+                                .chain_err(|| format!("in 'bookmark': can't evaluate xpath \"{}\"", &xpath.to_string()) )? {
+                        Value::Nodeset(nodes) => match nodes.document_order().first() {
+                            None => bail!("in 'bookmark': no matching element found for xpath \"{}\"", &xpath.to_string()),
+                            Some(node) => node.string_value(),
+                        },
+                        Value::String(s) => s,
+                        Value::Number(num) => num.to_string(),
+                        Value::Boolean(b) => b.to_string(),
+                    };
+                    return Ok( format!("<{}='{}'/>", tag_and_attr, TTS::escape_xml(&id)) );
                 },
                 _ => bail!("Implementation error: found bookmark value that did not evaluate to a string"),
             }
         }
     
+    }
+
+    /// Replace the characters that have a meaning in XML so that `text` (something that came from the input: text of a leaf, an id)
+    /// can be used as character data or as an attribute value in the SSML/SAPI5 output.
+    pub fn escape_xml(text: &str) -> String {
+        if !text.contains(['&', '<', '>', '\'', '"']) {
+            return text.to_string();
+        }
+        let mut result = String::with_capacity(text.len() + 8);
+        for ch in text.chars() {
+            match ch {
+                '&' => result.push_str("&amp;"),
+                '<' => result.push_str("&lt;"),
+                '>' => result.push_str("&gt;"),
+                '\'' => result.push_str("&apos;"),
+                '"' => result.push_str("&quot;"),
+                _ => result.push(ch),
+            }
+        }
+        return result;
     }
 
     // auto pausing can't be known until neighboring strings are computed
